@@ -702,6 +702,16 @@ func checkFilterCallbackReturns(c *core.Ctx, rule, key string, fn *ssa.Function)
 						}
 					}
 					if !ok {
+						// `if !yield(item, nil) { return false }`: the consumer itself declined
+						for _, cd := range facts.CondsAt(r.Block()) {
+							if call, isCall := cd.V.(*ssa.Call); isCall && !cd.Pos {
+								if _, isY := isYieldCall(call); isY {
+									ok = true
+								}
+							}
+						}
+					}
+					if !ok {
 						// accept the "record the error in a captured variable and stop" idiom
 						for _, b := range f.Blocks {
 							for _, in := range b.Instrs {
@@ -1077,4 +1087,73 @@ func helperConstResults(call *ssa.Call, idx int, depth int) ([]int64, bool) {
 		vals = append(vals, vs...)
 	}
 	return vals, len(vals) > 0
+}
+
+// origin is a value a helper result can stand for, with the binding of the
+// helper's parameters at the call that produced it.
+type origin struct {
+	V    ssa.Value
+	bind map[*ssa.Parameter]ssa.Value
+}
+
+// up: x, or the caller's argument if x is a parameter of the helper the origin lives in.
+func (o origin) up(x ssa.Value) ssa.Value {
+	for d := 0; d < 4; d++ {
+		p, ok := facts.Resolve(x).(*ssa.Parameter)
+		if !ok {
+			return x
+		}
+		a, ok := o.bind[p]
+		if !ok {
+			return x
+		}
+		x = a
+	}
+	return x
+}
+
+// helperResultOrigins: if v is result i of a call of a private helper, the
+// non-zero values that helper can return as result i (recursively, depth
+// bounded); otherwise v itself.
+func helperResultOrigins(v ssa.Value, depth int) []origin {
+	return originsOf(v, depth, map[*ssa.Parameter]ssa.Value{})
+}
+
+func originsOf(v ssa.Value, depth int, bind map[*ssa.Parameter]ssa.Value) []origin {
+	r := facts.Resolve(v)
+	var call *ssa.Call
+	idx := 0
+	switch x := r.(type) {
+	case *ssa.Extract:
+		call, _ = x.Tuple.(*ssa.Call)
+		idx = x.Index
+	case *ssa.Call:
+		call = x
+	}
+	if call == nil || depth <= 0 {
+		return []origin{{r, bind}}
+	}
+	h := call.Call.StaticCallee()
+	if h == nil || h.Blocks == nil || len(privateCallSites(h)) == 0 || len(call.Call.Args) != len(h.Params) {
+		return []origin{{r, bind}}
+	}
+	nb := map[*ssa.Parameter]ssa.Value{}
+	for k, val := range bind {
+		nb[k] = val
+	}
+	for i, p := range h.Params {
+		nb[p] = call.Call.Args[i]
+	}
+	var out []origin
+	for _, ret := range returnsOf(h) {
+		if idx >= len(ret.Results) {
+			continue
+		}
+		rv := facts.RetVal(ret, idx)
+		if isZero(rv) {
+			continue
+		}
+		out = append(out, originsOf(rv, depth-1, nb)...)
+	}
+	return out
 }
